@@ -207,3 +207,11 @@ def run(facts, rep, tier):
 
     # R2: panic inventory below the notification path
     panics.inventory(facts, rep, "C11-R2", [on_notif.def_], floor=40, prop="C11")
+    rep.rule("C11-R4", "= C04-R6: applying an edit merges the new note's index into the library's by per-key union (an overwrite would take earlier edits' links out of "
+             "the answers to later requests).")
+    from . import c04 as _c04
+    _c04.rule_r6(facts, rep, "C11-R4")
+    rep.rule("C11-R5", "= C12-R5: lock discipline - no worker takes the state lock twice (a writer queued between the two reads deadlocks the loop thread, and every later "
+             "notification with it).")
+    from . import c12 as _c12
+    _c12.rule_r5(facts, rep, "C11-R5")
